@@ -319,3 +319,14 @@ CLAIMS["C04"]["text"] += (" A host layer (TestHostPair) drives BasicHost.NewStre
 CLAIMS["C04"]["note"] += (" The tcpreuse layer runs in real time on loopback (not in a synctest bubble): interleavings are not exactly reproducible; the verdict is taken only after Close returned, plus a 5 s bound for the remote end to observe EOF/reset; harness timeouts count as inconclusive. WebSocket and QUIC transports' own dial/accept paths are not fault-enumerated.")
 CLAIMS["C07"]["text"] += (" The request list is treated as the caller's own slice object: private slices and lists the application keeps (with spare capacity or clipped) are passed to several NewStream calls of one history; every open is judged against the list the caller intended, and the caller's backing array must be unchanged after every call.")
 CLAIMS["C03"]["text"] += (" In the concurrent property the harness' limiter may give way to other goroutines before answering a limit lookup, stretching the moment at which a scope is created on first use.")
+
+CLAIMS["C05"]["text"] += (" Successful outcomes may complete although the attempt was cancelled meanwhile (the handshake finishes at or after the cancel): a ninth oracle demands that every connection a transport produced is either admitted to the swarm or closed once every caller has returned. "
+    "A reported back-off must be explained by a failed dial whose back-off (BackoffBase + BackoffCoef*(k-1)^2) was still running when the caller started.")
+CLAIMS["C13"]["text"] += (" Messages can be held so that they are read from a connection and handled only after that (often the last) connection is gone (also in a late mode of the fuzz target): from every point at which the peer has no connection until one is opened again, the number of addresses retained may not rise above "
+    "the address book's documented per-peer cap for unconnected peers (64), nor above what was there already.")
+CLAIMS["C13"]["note"] += (" Assumes pstoremem's default per-peer cap (64); what a message handled between the close of the last connection and its Disconnected notification leaves behind (up to 500 on the unchanged tree) is observed and labelled, not asserted.")
+CLAIMS["C18"]["text"] += (" TestTransportListenHistory runs the real WebTransport transport inside a virtual-time bubble over an in-memory UDP stack and generates the history of Listen calls of one transport - successful, failing at generated instants (address in use, not available, second listener on the same port, malformed addresses) and closes - around 0-6 rollovers; "
+    "every live listener is observed by a reference QUIC/TLS handshake at every sampled instant and must serve a valid-with-allowance, advertised, deterministic certificate under which addresses learnt in the current or previous period still verify, whatever Listen calls failed in between.")
+CLAIMS["C19"]["text"] += (" Server secrets are exercised over their shape: application-provided HmacKeys of 1-200 bytes, pairs that differ in one byte at any position class or extend/truncate each other, rotation of one server's key, and forgeries under secrets close to the target's, randomly and by a complete enumeration of 142 key pairs. "
+    "Header syntax around values is exercised too (bytes after the closing quote, missing/doubled/inner quotes, whitespace, unquoted; random operator + 768-request enumeration + fuzz corpus): a value counts as carried only in a parameter whose quoting is intact.")
+CLAIMS["C19"]["note"] += (" HMAC keys contain no zero bytes (HMAC zero-pads short keys); for unquoted values, single quotes, blanks around '=' and a backslash before the closing quote either outcome is allowed.")
